@@ -53,7 +53,9 @@ size_t gclmulchunker::next_cut(const py::buffer& buffer, bool final = false) {
             return size / 2;
         else
             return max_length;
-    } else if (!final && size < max_length)
+    } else if (!final && size < ((max_length - 1) / 4) * 4 + 4)
+        // The window of the last hashed offset ends at the first multiple of 4
+        // that is >= max_length, wait until the buffer covers it
         return 0;
 
     for (i = 4; i < max_length; i += 4) {
